@@ -106,7 +106,7 @@ Definition wf_item (rs : list rule) (it : item) : bool :=
       | Some (o, _) => match find_opt rs o with Some _ => false | None => true end
       | None => true
       end &&
-      (second_dash t || match tuples (all_flags rs) t with [] => true | _ => false end)
+      (Nat.eqb (String.length t) 1 || second_dash t || match tuples (all_flags rs) t with [] => true | _ => false end)
   end.
 
 (* declared meaning of one item *)
